@@ -23,7 +23,7 @@ fi
 t=$(timeout 600 /venv/bin/python -m pytest -q -p no:cacheprovider 2>&1 | tail -1)
 d1=$(PYTHONPATH=$D timeout 120 /venv/bin/python $SRC/demo.py >/dev/null 2>&1; echo $?)
 echo "$ID-$V: tests[$t] demo_without=$d0 demo_with=$d1"
-cd /verif
+cd ${VERIF_DIR:-/verif}
 for c in $CHECKS; do
   out=$(VERIF_FAILFAST=${FAILFAST:-} VERIF_REPO="$D" timeout 1500 ./check $c --tier ${TIER:-quick} --no-evidence 2>&1); rc=$?
   echo "  check $c exit=$rc $(echo "$out" | grep -E "^  key=|INCONCL" | grep -v KNOWN | head -2 | cut -c1-260 | tr '\n' '|')"
